@@ -26,7 +26,13 @@ import (
 
 type rng struct{ s uint64 }
 
-func newRng(seed uint64) *rng { return &rng{s: seed*0x9E3779B97F4A7C15 + 0x1234567} }
+func newRng(seed uint64) *rng {
+	// scramble the seed so that streams of neighbouring seeds are unrelated
+	z := seed + 0x632BE59BD9B4E019
+	z = (z ^ (z >> 30)) * 0xBF58476D1CE4E5B9
+	z = (z ^ (z >> 27)) * 0x94D049BB133111EB
+	return &rng{s: z ^ (z >> 31)}
+}
 func (r *rng) next() uint64 {
 	r.s += 0x9E3779B97F4A7C15
 	z := r.s
